@@ -93,6 +93,10 @@ def exhaustive_cases(n):
                 for bottom in (0, 1):
                     for ver in (0, 1):
                         yield (bottom, ver, 0, 0, list(snaps), {"61": vs}), [[("61",) + v for v in vs]]
+                    # finite retention (timestamps are seq*10): the two newest versions inside the window and the
+                    # rest outside; everything outside (the superseded / newer-barrier branches of the decision)
+                    for ret, now in ((15, n * 10 + 5), (1, n * 10 + 50)):
+                        yield (bottom, 1, ret, now, list(snaps), {"61": vs}), [[("61",) + v for v in vs]]
 
 
 def explore(ctx, pid, versioning=None, n_quick=3000, n_thorough=40000):
